@@ -93,7 +93,7 @@ PROPS['C03'] = dict(
     trusted=ENGINE_TRUSTED, assumptions=["flag field well-formed (FlagsOk: the 8 built-in flags exist), as NewState guarantees"],
 )
 PROPS['C05'] = dict(
-    prop_modules=['Vise.Props.C05'], lean_targets=['Vise.Props.C05'], suites=['engine', 'cache'],
+    prop_modules=['Vise.Props.C05', 'Vise.Props.C05Catch'], lean_targets=['Vise.Props.C05', 'Vise.Props.C05Catch'], suites=['engine', 'cache'],
     compare={'engine': eng(['x', 'f', 'fr', 'sz', 'u', 'lv', 'cl', 'o'])},
     trusted=ENGINE_TRUSTED, assumptions=["declared sizes 0..65535 (a larger LOAD size is truncated to uint16 by the VM, outside the property's domain)"],
 )
